@@ -383,9 +383,12 @@ def replay(ctx, tools, irx, glx, en):
     src = open(os.path.join(d, "input.wgsl")).read()
     try:
         case = json.load(open(os.path.join(d, "case.json")))
+    except OSError:
+        case = {"program": "replay", "opts": {"version": 430}, "entry": None}
+    try:
         inputs = json.load(open(os.path.join(d, "inputs.json")))
     except OSError:
-        case, inputs = {"program": "replay", "opts": {"version": 430}, "entry": None}, None
+        inputs = None
     r = glslcorr.compile_jobs(tools, [{"id": 0, "src": src, "opts": {"version": 430}}]).get(0) or {}
     if "ir" not in r:
         print("replay: the program no longer compiles:", str(r)[:300])
@@ -502,8 +505,8 @@ def run(ctx):
     else:
         # quick: every program under one base profile (alternating desktop / ES) and one rotating richer option set
         extra = OPTION_SETS[2 + rot.below(len(OPTION_SETS) - 2)]
-        v.validate(own[0::2], [OPTION_SETS[0], extra], 2, own=True)
-        v.validate(own[1::2], [OPTION_SETS[1], extra], 2, own=True)
+        v.validate(own[0::2], [OPTION_SETS[0], extra], 1, own=True)
+        v.validate(own[1::2], [OPTION_SETS[1], extra], 1, own=True)
     # layout probes (structure checks only need the compile; they run through validate with zero-cost inputs)
     v.validate([(n, s, ("small",)) for n, s in glslprogs.LAYOUT], [OPTION_SETS[0], OPTION_SETS[1]], 1, own=True)
     own_stats = dict(v.stats)
